@@ -303,6 +303,7 @@ Section PatchObj.
     end.
 End PatchObj.
 
+Arguments mkAcc {S}. Arguments a_srv {S}. Arguments a_log {S}. Arguments a_patched {S}.
 Arguments mkRes {S}. Arguments r_out {S}. Arguments r_log {S}. Arguments r_srv {S}.
 Arguments PcOk {S}. Arguments PcRaised {S}.
 Arguments ApOk {S}. Arguments ApRaised {S}.
